@@ -108,17 +108,10 @@ theorem simple_bounded (s : List Char) : OptBounded (simple s).1 := by
   split
   · rename_i x h
     have := terminated_eq h
-    unfold hyphen at this
-    simp only at this
-    split at this
-    · cases this
-    · split at this
-      · split at this
-        · cases this
-        · split at this
-          · cases this
-          · cases this; intro y hy; exact hyphenSet_bounded hy
-      · cases this
+    obtain ⟨u, _, ho⟩ := hyphen_some (o := x.1) (r := x.2) this
+    intro y hy
+    rw [ho] at hy
+    exact hyphenSet_bounded hy
   · split
     · rename_i x h
       have := terminated_eq h
